@@ -348,6 +348,13 @@ def check(run):
     okrs = bool(resend) and all(any('m_outgoing_packets.empty()' == q.render(ip, a) and not p for a, p in q.guards_at(ip, c)) for c in resend)
     run.check(okrs, 'R9', 'resend-through-send_packet', T + '::incoming_packet:ack-branch', ip.loc(), 'dropped segments are not re-sent through send_packet under !m_outgoing_packets.empty()', 'resent through send_packet (accounting, capture)')
 
+    run.check(bool(resend) and all(any(all(t_ in q.render(ip, a) for t_ in ('m_outgoing_packets', 'm_cwnd', 'm_bytes_in_flight')) and p for a, p in q.guards_at(ip, c)) for c in resend), 'R9', 'resend-fits-by-own-size', T + '::incoming_packet:ack-branch', ip.loc(),
+              'the resend of a dropped segment is not admitted by comparing in-flight bytes plus THAT segment\'s size with the window (e.g. a full MSS is demanded instead): a short tail segment is never resent once the window has been halved to one MSS and nothing else is left to send - dropped segments wait unsent and the read never completes',
+              'resent when m_bytes_in_flight + size of the queued segment <= m_cwnd')
+    run.clause('R4 a dropped segment is queued for retransmission on EVERY path of packet_dropped() that still has a connection (the once-per-window back-off only skips the halving, never the re-queue)')
+    run.check(bool(requeue) and not q.exit_reachable_under(pd, None, requeue, lambda atom: {'m_channel': True}.get(q.render(pd, q.strip_casts(atom)).replace('this->', ''))), 'R4', 'dropped-always-requeued', T + '::packet_dropped', pd.loc(),
+              'a path through packet_dropped() with the connection still attached returns without queuing the segment in m_outgoing_packets (e.g. the "already halved in this window" early return): every further drop in the same window is discarded for good and the stream stalls with a read pending',
+              'every path with m_channel set re-queues the segment')
     # ------------------------------------------------------------ armed drop callback
     run.clause('R4 every payload segment handed to send_packet carries a freshly assigned drop callback (first transmission and retransmission)')
     arm = [a for a in q.field_accesses(ws, {P + '::drop_fun'}) if a.kind == 'assign']
